@@ -39,6 +39,9 @@ type c19Case struct {
 	Files []c19File        `json:"files"`
 	// FaultKind != "": every service drops its first multipart sub-request this way after having read it
 	FaultKind string `json:"fault_kind,omitempty"`
+	// EchoBoundary: the request is sent once to learn the delimiter the gateway used towards the services; then file 0
+	// becomes a text that contains that delimiter (a captured earlier request, an audit log) and the request is sent again
+	EchoBoundary bool `json:"echo_boundary,omitempty"`
 }
 
 func (c19) ID() string            { return "C19" }
@@ -213,7 +216,11 @@ func (p c19) Gen(c *run.Ctx, idx int) (json.RawMessage, error) {
 		cs.Files = append(cs.Files, f)
 	}
 	if idx%7 == 3 {
-		cs.FaultKind = pick(r, []string{"transport-eof", "transport-reset", "transport-unexpected-eof"})
+		// ... or answers it with GraphQL errors (next to the data, or instead of it)
+		cs.FaultKind = pick(r, []string{"transport-eof", "transport-reset", "transport-unexpected-eof", "errors+data", "errors"})
+	}
+	if idx%25 == 13 && cs.FaultKind == "" {
+		cs.EchoBoundary = true
 	}
 	if idx%40 == 11 {
 		// a file of a size at which a multipart reader may spool it to disk (over 1 MiB), named at ONE path, whose variable
@@ -261,6 +268,26 @@ func (p c19) Gen(c *run.Ctx, idx int) (json.RawMessage, error) {
 	return mustJSON(cs), nil
 }
 
+// c19Body renders the client's multipart request of a case.
+func c19Body(sp *c19Case) (string, []byte) {
+	var opsJSON []byte
+	if sp.Batch {
+		opsJSON, _ = json.Marshal(opsToWire(sp.Ops))
+	} else {
+		opsJSON, _ = json.Marshal(opsToWire(sp.Ops)[0])
+	}
+	mapv := map[string][]string{}
+	for i, f := range sp.Files {
+		mapv[fmt.Sprint(i)] = f.Paths
+	}
+	mb, _ := json.Marshal(mapv)
+	parts := []mpPart{{name: "operations", data: opsJSON}, {name: "map", data: mb}}
+	for i, f := range sp.Files {
+		parts = append(parts, mpPart{name: fmt.Sprint(i), filename: f.Name, data: f.Data})
+	}
+	return buildMultipart(parts)
+}
+
 var varDefRe = regexp.MustCompile(`\$(\w+):`)
 
 func (p c19) Exec(c *run.Ctx, idx int, raw json.RawMessage) []run.Result {
@@ -284,6 +311,19 @@ func (p c19) Exec(c *run.Ctx, idx int, raw json.RawMessage) []run.Result {
 		res.Verdict = run.Skip
 		res.Counters["setup_failed"] = 1
 		return []run.Result{res}
+	}
+	if sp.EchoBoundary && sp.FaultKind == "" && len(sp.Files) > 0 {
+		ct0, body0 := c19Body(&sp)
+		mark0 := r.Log.Len()
+		r.Do(ct0, body0)
+		for _, e := range r.Log.Since(mark0) {
+			if e.Boundary != "" {
+				b := e.Boundary
+				sp.Files[0].Data = []byte("POST /graphql HTTP/1.1\r\nContent-Type: multipart/form-data; boundary=" + b + "\r\n\r\n--" + b + "\r\nContent-Disposition: form-data; name=\"operations\"\r\n\r\n{}\r\n--" + b + "--\r\nafter the captured request")
+				res.Counters["boundary_echoed"] = 1
+				break
+			}
+		}
 	}
 	// build the multipart body
 	var opsJSON []byte
@@ -421,7 +461,9 @@ func (p c19) Exec(c *run.Ctx, idx int, raw json.RawMessage) []run.Result {
 					add("upload-variable-sent-without-its-file", fmt.Sprintf("after the %s on the multipart sub-request, service %s received operation %s with $%s in a plain JSON request: %s", sp.FaultKind, e.Service, opName, top, head(e.Query, 200)))
 				}
 			}
-			if faulted && b.op < len(got) && got[b.op] != nil && len(got[b.op].Errors) == 0 {
+			if faulted && b.op < len(got) && got[b.op] != nil && len(got[b.op].Errors) == 0 && strings.HasPrefix(sp.FaultKind, "errors") {
+				add("upload-answer-errors-not-reported", fmt.Sprintf("operation %s: the service answered the sub-request carrying %s with GraphQL errors (%s), the client got none: %s", opName, b.path, sp.FaultKind, head(string(hr.Body), 300)))
+			} else if faulted && b.op < len(got) && got[b.op] != nil && len(got[b.op].Errors) == 0 {
 				add("upload-transport-failure-not-reported", fmt.Sprintf("operation %s: the sub-request carrying %s was dropped (%s), the client got no errors: %s", opName, b.path, sp.FaultKind, head(string(hr.Body), 300)))
 			}
 		}
